@@ -222,6 +222,47 @@ def check_kept(e, D, P, seed, out):
             return
 
 
+def run_plain_extremes(u, out):
+    """plain-array calls on data where a mathematically equivalent rewrite of the NumPy/SciPy call goes wrong: determinants
+    that are negative or over- / underflow a double (logdet = slogdet[1]), and the zeroth coefficient of the polynomial
+    version on the same data (branches must go the same way with and without derivative propagation)"""
+    rng = np.random.default_rng(3)
+    mats = [('negative determinant', np.array([[1.0, 2.0], [3.0, 1.0]]))]
+    for n, sc in [(120, 1e3), (200, 1e-2), (60, 1e-6)]:
+        Q, _ = np.linalg.qr(rng.normal(size=(n, n)))
+        mats.append(('%dx%d scaled by %g' % (n, n, sc), Q * sc))
+    for nm, A in mats:
+        out['evals'] += 1
+        out['nontrivial'] += 1
+        case = {'kind': 'plainx', 'name': nm}
+        exp = np.linalg.slogdet(A)[1]
+        try:
+            got = algopy.logdet(A.copy())
+        except Exception as ex:
+            out['fails'].append({'sig': 'C10|logdet|plain arrays|raises', 'case': case, 'detail': {'error': str(ex)[:160]}})
+            continue
+        if not (np.isfinite(got) and abs(got - exp) <= 1e-9 * (1 + abs(exp))):
+            out['fails'].append({'sig': 'C10|logdet|plain arrays|differs from numpy.linalg.slogdet', 'case': case, 'detail': {'got': float(got), 'expected': float(exp)}})
+            continue
+        if np.linalg.slogdet(A)[0] > 0:
+            z = algopy.logdet(UTPM(A.reshape((1, 1) + A.shape).copy())).data[0, 0]
+            if not abs(z - exp) <= 1e-9 * (1 + abs(exp)):
+                out['fails'].append({'sig': 'C10|logdet|zeroth coefficient|large matrices', 'case': case, 'detail': {'got': float(z), 'expected': float(exp)}})
+    # vecsym / symvec on plain arrays against the documented row-wise order, N = 1..5
+    for N in range(1, 6):
+        v = np.arange(N * (N + 1) // 2, dtype=float) + 1.0
+        out['evals'] += 1
+        case = {'kind': 'plainx', 'name': 'vecsym N=%d' % N}
+        A = algopy.vecsym(v.copy())
+        ref = np.zeros((N, N))
+        iu = np.triu_indices(N)
+        ref[iu] = v
+        ref = ref + np.triu(ref, 1).T
+        zu = algopy.vecsym(UTPM(v.reshape(1, 1, -1).copy())).data[0, 0]
+        if not (np.array_equal(A, ref) and np.array_equal(zu, ref) and np.array_equal(algopy.symvec(A), v)):
+            out['fails'].append({'sig': 'C10|vecsym|plain arrays|order of the packed entries', 'case': case, 'detail': {'N': N}})
+
+
 def run_maxties(u, out):
     """UTPM.max / UTPM.argmax on data whose maximal zeroth coefficient occurs several times: ALL value patterns over {0,1,2}
     for up to 4 elements, different patterns per direction; zeroth coefficient = numpy.max per direction"""
@@ -387,6 +428,7 @@ def run_unit(u):
         return out
     if u['kind'] == 'maxties':
         run_maxties(u, out)
+        run_plain_extremes(u, out)
         return out
     if u['kind'] == 'entries':
         for nm in u['names']:
@@ -417,6 +459,9 @@ def replay(case):
         check_plain(CAT.BY_NAME[case['name']], case.get('seed', 0), out)
     elif case['kind'] == 'kept':
         check_kept(CAT.BY_NAME[case['name']], case['D'], case['P'], case.get('seed', 0), out)
+    elif case['kind'] == 'plainx':
+        run_plain_extremes(case, out)
+        out['fails'] = [f for f in out['fails'] if f['case'].get('name') == case.get('name')]
     elif case['kind'] == 'maxties':
         run_maxties(case, out)
         out['fails'] = [f for f in out['fails'] if all(f['case'].get(k) == case.get(k) for k in ('n', 'pattern', 'D', 'P'))]
